@@ -78,4 +78,16 @@ theorem cname_ne_empty (n : String) (h : n ≠ "*") : cnameOf n ≠ "" := by
 theorem isEmpty_iff (n : String) : n.isEmpty = true ↔ n = "" := by
   simp
 
+theorem cname_ne_self (n : String) : cnameOf n ≠ n := by
+  intro e
+  have hl : (cnameOf n).toList.length = n.toList.length := by rw [e]
+  cases hs : isStarred n with
+  | false =>
+    rw [cnameOf_not n hs, String.toList_append, toList_star] at hl
+    simp at hl
+  | true =>
+    obtain ⟨l, hl'⟩ := (isStarred_iff n).mp hs
+    rw [cnameOf_starred n hs, String.toList_ofList, hl', List.dropLast_concat] at hl
+    simp at hl
+
 end Dsd.DomL
